@@ -30,7 +30,7 @@ def make(task):
 
 def worker(task):
     deck, pre = make(task)
-    return deckprop.run_deck(PROP, 'deck%s' % (task,), deck, pre)
+    return deckprop.run_deck(PROP, 'deck%s' % (task,), deck, pre, what=('regions', 'compo', 'valid', 'records'))
 
 
 def tasks_for(tier):
